@@ -315,7 +315,8 @@ def run_derived(inp):
            "rels": [list(d.parse_word(r)) for r in d.relations]}
     for w in inp["words"]:
         out["vals"].append(H.guard(lambda: H.asl(d[w["s"]], inp["spec"]["ring"])))
-        out["bounds"].append(H.norm_bound(d, w["l"]))
+        # derived generators are built from inverses (and inverses of inverses): error scale = conditioning of the word
+        out["bounds"].append(H.norm_bound(d, w["l"]) * H.norm_bound(d, [H.swapcase(x) for x in w["l"]]))
     return out
 
 
